@@ -136,3 +136,5 @@ def run(eng, rep):
     rep.not_decided += ["||d|| <= delta(1+1e-8), model decrease, Cauchy decrease, gnew = g + H d (numerical)", "the optional Fortran back end (outside the analysed source)"]
     rule_final_clipping(eng, rep)
     rule_totality(eng, rep)
+    from .mirrorrule import rule_mirror
+    rule_mirror(eng, rep, 'C12-3.lower-and-upper-bound-handling-are-reflections', ['trust_region.alt_trust_step', 'trust_region.trsbox', 'trust_region.d_within_bounds'])
